@@ -21,10 +21,12 @@ RULE = (
     "Model side: the tree of analysis interfaces of the parsed AST (partials expanded) goes to the Lean driver, "
     "which runs the model of _visit; compared: the five reported collections as multisets, that every traced event "
     "(with the Python-computed textual flag) is among the events the model's render can emit, and that the "
-    "kernel-proved implication hypotheses -> sound holds on the instance. Streams: corpus (hand-written witnesses), "
+    "kernel-proved implications hypotheses -> sound (Hyp and the weaker hyp2b) hold on the instance, and that every "
+    "reported variable/filter/tag span points at the item in the named template's source. Streams: corpus (hand-written witnesses), "
     "gen (own generator: nested for/tablerow, capture, assign, with, macro/call, case, if/unless, include/render "
-    "with/for/as/arguments, partials reached several times from different scopes, 35% of cases with every "
-    "partial reached once), genprog (the shared all-tags generator). Non-trivial: at least one traced lookup "
+    "with/for/as/arguments, partials reached several times from different scopes; 35% of cases reach every "
+    "partial once, 30% repeat renders under one binding style with unique includes; measured: ~78% satisfy Hyp, "
+    "~85% the weaker hyp2b), genprog (the shared all-tags generator). Non-trivial: at least one traced lookup "
     "inside a partial or with a non-empty dynamic chain or classified as bound, and at least two distinct roots."
 )
 TRUSTED_BASE = [
@@ -45,7 +47,8 @@ ASSUMPTIONS = [
     "a render's set of events equals the event set of one choice-driven model run (each node/expression "
     "contributes independently); validated per case: every traced event is among the model's reachable events",
     "macros are called in the template that defines them (the hook reports the calling template's name)",
-    "lambda expressions (expression scopes), template inheritance and snippet blocks are outside the model",
+    "this tree has no lambda expressions (Expression.scope() is empty everywhere; a non-empty scope puts a case outside "
+    "the model); template inheritance and snippet blocks are outside the model (direct oracle only)",
 ]
 MANIFEST = {
     "technique": "Lean 4 proof (mutual structural induction over the expanded node tree, invariant: static scope "
@@ -56,6 +59,9 @@ MANIFEST = {
     "reported variable, every reachable filter and tag is reported, and every lookup at a reference neither "
     "inside a binding block nor preceded by an assignment has its root reported global (stages "
     "analysis_sound_nopartials, analysis_sound_include_partial, analysis_sound_render_partial). "
+    "analysis_sound_keyed_partial: the same conclusion when rendered partials are reached any number of times, provided "
+    "equal render keys (name, argument names) mean equal bound variables, included names are reached once and no "
+    "include sits below a render/macro. analysis_reports_all: sentence 1 for any consistent acyclic tree. "
     "analysis_counterexample_*: kernel-decided witnesses that the full statement fails when a partial is reached "
     "twice from different scopes or an include sits below a render (replayed on the implementation as known "
     "findings). exprs_covered: every attribute a node's render evaluates/renders is yielded by "
@@ -78,6 +84,10 @@ class Gen:
         self.nodup = nodup
         self.back = back
         self.unused = list(range(nparts))
+        self.keyed = False  # renders may repeat, every render of a partial binds the same way, includes are unique
+        self.style = {}
+        self.rendered = set()
+        self.included = set()
         self.macros = []
         self.mk = 0
         self.ternary = False
@@ -162,12 +172,24 @@ class Gen:
         if not cands:
             return "{{ " + self.filtered() + " }}"
         t = r.choice(cands)
+        kind = "render" if (isolated and (self.nodup or self.keyed or r.chance(80))) or r.chance(45) else "include"
+        if self.keyed:
+            if t in self.included or (kind == "include" and t in self.rendered):
+                kind = "render" if t in self.rendered else None
+            if kind is None:
+                return "{{ " + self.filtered() + " }}"
+            (self.rendered if kind == "render" else self.included).add(t)
         if t in self.unused:
             self.unused.remove(t)
-        kind = "render" if (isolated and (self.nodup or r.chance(80))) or r.chance(45) else "include"
         s = "{% " + kind + " 'p" + str(t) + "'"
         k = r.below(10)
-        if k < 3:
+        if self.keyed and kind == "render":
+            if t not in self.style:
+                self.style[t] = None if r.chance(60) else (r.choice(["with", "for"]), self.name() if r.chance(60) else None)
+            st = self.style[t]
+            if st is not None:
+                s += " " + st[0] + " " + self.path() + (" as " + st[1] if st[1] else "")
+        elif k < 3:
             s += " " + r.choice(["with", "for"]) + " " + self.path()
             if r.chance(60):
                 s += " as " + self.name()
@@ -270,6 +292,7 @@ def gen_case(rng, nodup=None, back=None):
     if back is None:
         back = (not nodup) and rng.chance(8)
     g = Gen(rng, nparts, nodup, back)
+    g.keyed = (not nodup) and (not back) and rng.chance(45)
     g.ternary = rng.chance(40)
     budget = [rng.choice([8, 14, 22, 30])]
     partials = {}
@@ -299,6 +322,7 @@ def gen_case(rng, nodup=None, back=None):
         "runs": runs,
         "async_analysis": rng.chance(25),
         "nodup": bool(nodup),
+        "keyed": bool(g.keyed),
     }
 
 
@@ -362,7 +386,7 @@ class ProgStream(Stream):
     def compare_view(self, case, obs):
         an = obs["an"]
         return {"variables": an["variables"], "globals": an["globals"], "locals": an["locals"], "filters": an["filters"],
-                "tags": an["tags"], "unreached": [], "theorem_instance": True, "first_sentence_instance": True, "partial_keys_as_modelled": bool(obs.get("keys_ok", True))}
+                "tags": an["tags"], "unreached": [], "theorem_instance": True, "theorem2_instance": True, "first_sentence_instance": True, "partial_keys_as_modelled": bool(obs.get("keys_ok", True))}
 
     def canon_model(self, case, mobs):
         if not isinstance(mobs, dict) or "error" in mobs:
@@ -375,6 +399,7 @@ class ProgStream(Stream):
             "tags": sorted(mobs["tags"]),
             "unreached": mobs["unreached"],
             "theorem_instance": (not mobs["hyp"]) or mobs["sound"],
+            "theorem2_instance": (not mobs["hyp2"]) or mobs["sound"],
             "first_sentence_instance": mobs["first"],
             "partial_keys_as_modelled": True,
         }
